@@ -29,6 +29,11 @@
                       every open/change has its publication
      PublishExact     every publication carries exactly the parse-error ranges of a text the uri
                       had, converted with the reference conversion (DiagOK)
+     FinalPublishFresh  at quiescence the LAST publication for a uri is the one of the latest text of
+                      that uri (otherwise the client is left showing diagnostics of an older text).
+                      The code starts one goroutine per update and lets them race: Publish(o) for
+                      ANY owed o.  MCLspServer shows that this design violates FinalPublishFresh and
+                      that writing publications in handling order (Ordered) repairs it.
      ReplyOK          the reply to a request on a known document is a result computed at the
                       offset the reference conversion prescribes (RespIdx), see below
      Liveness (MCLspServer, under weak fairness of Handle and Publish): the system becomes Quiescent.
@@ -38,7 +43,8 @@
                       code answers with a JSON-RPC error. Result or error are both accepted.
      RespIdx = AnyIdx    positions that are not Required (LspPos): the reply may be computed at any
                       offset: only "a well-formed reply" is demanded.
-     PublishOrder     the order in which owed publications are written (the goroutines race).
+     PublishOrder     the order in which owed publications are written, EXCEPT the last one per
+                      uri: see FinalPublishFresh.
      HoverExpect = "any"  hover content is only prescribed where the position is Required, the
                       document has no parse error and the offset lies inside an isolated
                       documented command word (a Words symbol alone on its line): then the reply
@@ -75,8 +81,8 @@ DocsAfter(d, m) == [u \in (DOMAIN d) \cup {m.uri} |-> IF u = m.uri THEN [text |-
 OwedAfter(o, m) == o \cup {[n |-> m.n, uri |-> m.uri, text |-> m.text, errs |-> m.errs]}
 \* the reply the server writes for request m when it knows docs d
 ReplyFor(d, m) == IF m.uri \in DOMAIN d
-                  THEN [t |-> "resp", id |-> m.n, known |-> TRUE, idx |-> RespIdx(d[m.uri].text, m.l, m.c)]
-                  ELSE [t |-> "resp", id |-> m.n, known |-> FALSE, idx |-> AnyIdx]
+                  THEN [t |-> "resp", id |-> m.n, known |-> TRUE, idx |-> RespIdx(d[m.uri].text, m.l, m.c), uri |-> m.uri, text |-> <<>>]
+                  ELSE [t |-> "resp", id |-> m.n, known |-> FALSE, idx |-> AnyIdx, uri |-> m.uri, text |-> <<>>]
 
 Handle ==
   /\ inflight # <<>>
@@ -90,7 +96,7 @@ Handle ==
 Publish(o) ==
   /\ o \in owed
   /\ owed' = owed \ {o}
-  /\ wire' = Append(wire, [t |-> "pub", id |-> o.n, known |-> TRUE, idx |-> AnyIdx])
+  /\ wire' = Append(wire, [t |-> "pub", id |-> o.n, known |-> TRUE, idx |-> AnyIdx, uri |-> o.uri, text |-> o.text])
   /\ UNCHANGED <<docs, inflight, sent>>
 
 (* ---------------- properties ---------------- *)
@@ -98,5 +104,9 @@ RespIds == LET r == SelectSeq(wire, LAMBDA w : w.t = "resp") IN [i \in 1..Len(r)
 PubIds  == {wire[i].id : i \in {j \in 1..Len(wire) : wire[j].t = "pub"}}
 \* responses in request order, each once: the ids on the wire are strictly increasing
 InOrderOnce == \A i, j \in 1..Len(RespIds) : i < j => RespIds[i] < RespIds[j]
+\* at quiescence the last publication for every known uri is that of its latest text
+LastPubFor(u) == LET ps == {i \in 1..Len(wire) : wire[i].t = "pub" /\ wire[i].uri = u}
+                 IN wire[CHOOSE i \in ps : \A j \in ps : j <= i]
+FinalPublishFresh == (inflight = <<>> /\ owed = {}) => \A u \in DOMAIN docs : LastPubFor(u).text = docs[u].text
 NoDuplicatePublish == Cardinality(PubIds) = Len(SelectSeq(wire, LAMBDA w : w.t = "pub"))
 =============================================================================
